@@ -40,7 +40,10 @@ m = {
     ],
     "checks": checks,
     "not_applicable": na,
-    "notes": "All checks rebuild from /repo's working tree on every invocation (rewritten copies are regenerated). Exit 2 = infrastructure error.",
+    "notes": "All checks rebuild from /repo's working tree on every invocation (rewritten copies are regenerated). Exit 2 = infrastructure error. "
+             "Known findings (status known: printed as KNOWN-FINDING, exit 0) and repaired defects (status fixed: suppress nothing) are in known_findings.json, "
+             "matched by clause and cause-specific signature; the file is never written at run time. DESIGN.md section 9 is the as-built record; "
+             "seeded/ holds 140 property-breaking changes with the check that catches each (seeded/RESULTS.txt from bin/vseedall).",
 }
 json.dump(m, open(os.path.join(os.path.dirname(here), "MANIFEST.json"), "w"), indent=1)
 print("manifest: %d checks, %d not_applicable" % (len(checks), len(na)))
